@@ -299,6 +299,9 @@ func (r *Redirect) parseAndClearFlashMessages() {
 	// parse flash messages
 	cookieValue := r.c.app.getBytes(r.c.Cookies(FlashCookieName))
 
+	// the messages are delivered once: expire the cookie with this response
+	r.c.ClearCookie(FlashCookieName)
+
 	// every element takes at least one byte: a header announcing more elements than there are
 	// bytes is malformed and must not size the allocation
 	if n, _, err := msgp.ReadArrayHeaderBytes(cookieValue); err != nil || int64(n) > int64(len(cookieValue)) {
